@@ -110,6 +110,9 @@ class Builder:
                     return ex._bioLogLogitFullChoiceSet(util, choice=choice)
                 return ex._bioLogLogit(util, None, choice)
             av = {a: (b(av) if av is not None else 1) for a, _, av in spec[2]}
+            # optional 5th element: the order in which the availability dictionary lists its keys
+            if len(spec) > 4 and spec[4]:
+                av = {a: av[a] for a in spec[4]}
             return ex._bioLogLogit(util, av, choice)
         if k == 'Integrate':
             return ex.Integrate(b(spec[1]), spec[2])
